@@ -202,6 +202,9 @@ fn check(ctx: &Ctx, c: &Case) -> PResult {
             continue;
         }
         let a = g.splice(&g.wit, 0, 1, &vec);
+        if gadget::maybe_cross(&g, &a, c.seed, name.len(), 40, "range adversarial assignment")? {
+            ctx.label("adversarial assignment cross-checked with the real prover");
+        }
         let u = g.eval(&a);
         ctx.label(&format!("adversary: {name}"));
         ctx.add_evals(1);
